@@ -12,5 +12,5 @@ Disj == {p \in (SUBSET Node) \X (SUBSET Node) : p[1] \cap p[2] = {}}
 NoSelfGraphs == {x \in [Node -> SUBSET Node] : \A n \in Node : n \notin x[n]}
 TwoWrap == {w \in [Node -> WModes \cup {"none"}] : Cardinality({n \in Node : w[n] # "none"}) = 2}
 Fam == {[single |-> g, selfOpt |-> AllFalse, slice |-> Empty, sliceOpt |-> AllFalse, lazy |-> {},
-         wrap |-> w, fail |-> NoFail, procs |-> <<>>, mode |-> [n \in Node |-> "normal"], rorder |-> <<>>] : g \in NoSelfGraphs, w \in TwoWrap}
+         wrap |-> w, fail |-> NoFail, procs |-> <<>>, mode |-> [n \in Node |-> "normal"], rorder |-> <<>>, ilook |-> NoLook] : g \in NoSelfGraphs, w \in TwoWrap}
 =============================================================================
